@@ -137,6 +137,7 @@ type Obs struct {
 	Early  int       `json:"early"`
 	Pend   int       `json:"pend"`
 	Launch []int     `json:"launch"`
+	Leak   []int     `json:"leak"` // launched so far, running at the master, in no roster, never sent KILL
 	Note   string    `json:"note,omitempty"`
 	stg    []int
 	xf     []int
@@ -251,8 +252,8 @@ func obsTerm(o Obs) string {
 		}
 		ts[i] = fmt.Sprintf("(mkTask %s %s %s %d %s)", tidTerm(t.Id), ow, gen.Bool(t.Active), t.State, gen.Bool(t.Idok))
 	}
-	return fmt.Sprintf("(mkObs %d %s %s %s %s %s %s %s %d %d %s)", o.Rc, gen.List(es), gen.List(ts), nl(o.ADets),
-		tl(o.Kills), tl(o.Cmds), tl(o.Calls), tl(o.Trigs), o.Early, o.Pend, tl(o.Launch))
+	return fmt.Sprintf("(mkObs %d %s %s %s %s %s %s %s %d %d %s %s)", o.Rc, gen.List(es), gen.List(ts), nl(o.ADets),
+		tl(o.Kills), tl(o.Cmds), tl(o.Calls), tl(o.Trigs), o.Early, o.Pend, tl(o.Launch), tl(o.Leak))
 }
 
 func caseTerm(h History, r Result) string {
@@ -358,6 +359,11 @@ func workflowYAML(name string, e int, s *Spec, gated bool) string {
 				i, tidOf(e, i))
 		}
 	}
+	if s.Fail == 6 {
+		// a critical role whose host is offered but whose second constraint no agent satisfies: the other
+		// roles are launched, this one is undeployable (partial deployment failure)
+		fmt.Fprintf(&b, "  - name: \"rx\"\n    constraints:\n      - attribute: machine_id\n        value: \"%s\"\n      - attribute: verif_none\n        value: \"x\"\n    task:\n      load: %s\n      critical: true\n", hostName(5), className(e, 63, KPlain))
+	}
 	if s.Fail == 4 {
 		// a critical role that no agent can take
 		fmt.Fprintf(&b, "  - name: \"rx\"\n    constraints:\n      - attribute: machine_id\n        value: \"nohost\"\n    task:\n      load: %s\n      critical: true\n", className(e, 63, KPlain))
@@ -444,6 +450,8 @@ type child struct {
 	active   map[int]bool           // task key -> the core processed its TASK_RUNNING (status ACTIVE seen)
 	entered  map[int]bool           // task key -> seen in the roster
 	markers  int
+	attempts map[int]int // role key -> launches seen so far
+	killed   map[string]bool
 }
 
 const markerPrefix = "verif-marker-"
@@ -568,12 +576,19 @@ func (c *child) onLaunch(ti mesos.TaskInfo) string {
 	}
 	tid := ti.TaskID.Value
 	c.mu.Lock()
-	c.byTid[tid] = &launched{tid: tid, key: tidOf(e, i), e: e, i: i, envId: envId}
+	// a deployment that is retried launches the same roles again: attempt a of role i is task i + a*len(roles)
+	spec := c.specs[e]
+	attempt := c.attempts[tidOf(e, i)]
+	c.attempts[tidOf(e, i)]++
+	key := tidOf(e, i)
+	if spec != nil && attempt > 0 {
+		key = tidOf(e, i+attempt*len(spec.Roles))
+	}
+	c.byTid[tid] = &launched{tid: tid, key: key, e: e, i: i, envId: envId}
 	if envId != "" {
 		c.envIds[e] = envId
 		c.envIdx[envId] = e
 	}
-	spec := c.specs[e]
 	c.mu.Unlock()
 	mode := 0
 	if spec != nil && i < len(spec.Roles) {
@@ -592,7 +607,7 @@ func (c *child) onLaunch(ti mesos.TaskInfo) string {
 			return // never entered the roster (deployment attempt abandoned)
 		}
 		c.mu.Lock()
-		c.entered[tidOf(e, i)] = true
+		c.entered[key] = true
 		c.mu.Unlock()
 		switch mode {
 		case 0:
@@ -606,7 +621,7 @@ func (c *child) onLaunch(ti mesos.TaskInfo) string {
 				return false
 			}) {
 				c.mu.Lock()
-				c.active[tidOf(e, i)] = true
+				c.active[key] = true
 				c.mu.Unlock()
 			}
 		case 1:
@@ -635,6 +650,12 @@ func (c *child) onLaunch(ti mesos.TaskInfo) string {
 		}
 	}()
 	return "silent"
+}
+
+func (c *child) lookup(tid string) *launched {
+	c.mu.Lock()
+	defer c.mu.Unlock()
+	return c.byTid[tid]
 }
 
 func (c *child) keyOfTid(tid string) int {
@@ -764,7 +785,7 @@ func (c *child) observe(rc int, pendAfter int) Obs {
 	c.settle()
 	envs, roster, adets := c.projection()
 	o := Obs{Rc: rc, Envs: envs, Roster: roster, ADets: adets, Pend: pendAfter,
-		Kills: []int{}, Cmds: []int{}, Calls: []int{}, Trigs: []int{}, Launch: []int{}}
+		Kills: []int{}, Cmds: []int{}, Calls: []int{}, Trigs: []int{}, Launch: []int{}, Leak: []int{}}
 	if o.Envs == nil {
 		o.Envs = []EnvObs{}
 	}
@@ -783,6 +804,7 @@ func (c *child) observe(rc int, pendAfter int) Obs {
 				continue
 			}
 			o.Kills = append(o.Kills, c.keyOfTid(r.Kill))
+			c.killed[r.Kill] = true
 		case "ACCEPT":
 			for _, ti := range r.Tasks {
 				o.Launch = append(o.Launch, c.keyOfTid(ti.TaskID.Value))
@@ -818,6 +840,20 @@ func (c *child) observe(rc int, pendAfter int) Obs {
 	o.Early = c.early
 	c.early = 0
 	c.mu.Unlock()
+	// what the simulated master still runs although no roster knows it and no KILL was ever sent for it
+	inRoster := map[string]bool{}
+	for _, t := range c.s.Taskman.VerifRoster() {
+		inRoster[t.TaskId] = true
+	}
+	for tid, lt := range c.s.LiveTasks() {
+		if lt.Terminal || inRoster[tid] || c.killed[tid] {
+			continue
+		}
+		if k := c.keyOfTid(tid); k != 9999 {
+			o.Leak = append(o.Leak, k)
+		}
+	}
+	sort.Ints(o.Leak)
 	return o
 }
 
@@ -840,7 +876,7 @@ func (c *child) prepare(e int, s *Spec, gated bool) string {
 			os.WriteFile(filepath.Join(c.s.RepoDir, "tasks", n+".yaml"), []byte(fmt.Sprintf(basicClass, n)), 0o644)
 		}
 	}
-	if s.Fail == 4 {
+	if s.Fail == 4 || s.Fail == 6 {
 		n := className(e, 63, KPlain)
 		os.WriteFile(filepath.Join(c.s.RepoDir, "tasks", n+".yaml"), []byte(fmt.Sprintf(directClass, n)), 0o644)
 	}
@@ -934,6 +970,24 @@ func (c *child) runOp(o Op) Obs {
 		c.setCfgErr(o.E, o.Spec, true)
 		res := c.doCreate(o.E, wf)
 		c.setCfgErr(o.E, o.Spec, false)
+		if o.Spec.Fail == 6 {
+			// the last attempt's tasks reach the roster when acquireTasks returns; those scripted to run report in
+			want := 0
+			for _, ro := range o.Spec.Roles {
+				if (ro.Kind == KPlain || ro.Kind == KHookTask) && ro.Launch == 0 {
+					want++
+				}
+			}
+			simcore.WaitFor(8*time.Second, func() bool {
+				n := 0
+				for _, t := range c.s.Taskman.VerifRoster() {
+					if l := c.lookup(t.TaskId); l != nil && l.e == o.E && t.Status == "ACTIVE" {
+						n++
+					}
+				}
+				return n >= want
+			})
+		}
 		if o.Spec.Fail == 4 {
 			// acquireTasks keeps retrying (and holding the deployment mutex) for a while after
 			// the DEPLOY transition has given up
@@ -943,7 +997,9 @@ func (c *child) runOp(o Op) Obs {
 		if lostDeploy(o.Spec, res.err) {
 			ob.Note = "lost-deploy"
 		}
-		ob.stg = c.notYetActive(o.E, o.Spec, res.err, ob.Launch, ob.Cmds)
+		if o.Spec.Fail != 6 {
+			ob.stg = c.notYetActive(o.E, o.Spec, res.err, ob.Launch, ob.Cmds)
+		}
 		if res.err == nil && fmt.Sprint(ob.Cmds) != fmt.Sprint(ob.Launch) {
 			// the creation succeeded although CONFIGURE was not sent to every launched task (seen about
 			// once in 5000 histories under load: the task list of the CONFIGURE transition is read while
@@ -956,7 +1012,7 @@ func (c *child) runOp(o Op) Obs {
 				_, ob.Pend = ep.VerifC06PendingCalls()
 			}
 			for _, k := range ob.Launch {
-				if !c.entered[k] {
+				if !c.entered[k] && o.Spec.Fail != 6 {
 					ob.Note = "late-verdict"
 				}
 			}
@@ -1000,7 +1056,9 @@ func (c *child) runOp(o Op) Obs {
 		if lostDeploy(o.Spec, res.err) {
 			ob.Note = "lost-deploy"
 		}
-		ob.stg = c.notYetActive(o.E, o.Spec, res.err, ob.Launch, ob.Cmds)
+		if o.Spec.Fail != 6 {
+			ob.stg = c.notYetActive(o.E, o.Spec, res.err, ob.Launch, ob.Cmds)
+		}
 		if res.err == nil && fmt.Sprint(ob.Cmds) != fmt.Sprint(ob.Launch) {
 			// the creation succeeded although CONFIGURE was not sent to every launched task (seen about
 			// once in 5000 histories under load: the task list of the CONFIGURE transition is read while
@@ -1013,7 +1071,7 @@ func (c *child) runOp(o Op) Obs {
 				_, ob.Pend = ep.VerifC06PendingCalls()
 			}
 			for _, k := range ob.Launch {
-				if !c.entered[k] {
+				if !c.entered[k] && o.Spec.Fail != 6 {
 					ob.Note = "late-verdict"
 				}
 			}
@@ -1227,7 +1285,7 @@ func runChild(workDir string) {
 	}
 	c := &child{s: s, rec: rec, g: g, ctx: context.Background(), hist: h,
 		specs: map[int]*Spec{}, envIds: map[int]string{}, envIdx: map[string]int{}, envPtr: map[int]*environment.Environment{},
-		byTid: map[string]*launched{}, failCmd: map[string]bool{}, cfgErr: map[string]bool{}, pending: map[int]chan createRes{}, active: map[int]bool{}, entered: map[int]bool{}}
+		byTid: map[string]*launched{}, failCmd: map[string]bool{}, cfgErr: map[string]bool{}, pending: map[int]chan createRes{}, active: map[int]bool{}, entered: map[int]bool{}, attempts: map[int]int{}, killed: map[string]bool{}}
 	s.Beh.Launch = c.onLaunch
 	s.Beh.Command = func(taskId, cls, event string) simcore.CmdOutcome {
 		c.mu.Lock()
